@@ -297,3 +297,165 @@ func TestC09_Reshrink(t *testing.T) {
 		}
 	})
 }
+
+// TestC09_ShrinkProbes: deterministic regressions of repaired findings around
+// what AOFSHRINK writes (each would make the rewritten log unloadable or
+// different from what was acknowledged).
+func TestC09_ShrinkProbes(t *testing.T) {
+	if ev.Shard() != 0 {
+		t.Skip("probes run on shard 0")
+	}
+	c := ev.New("C09", "shrink-probes", "fault_enumeration")
+	t.Cleanup(c.Flush)
+	c.Rule("deterministic regression probes: (1) field names that become reserved names after trimming (\" z\", \"lat \") are either refused or survive AOFSHRINK + restart; (2) a channel whose area is given by reference (FENCE ... GET key id) keeps the area it resolved when it was defined across AOFSHRINK + restart, also when the referenced object was deleted or replaced meanwhile: the same SET produces the same notifications on the restarted server as on an un-shrunk twin. Non-trivial: every probe.")
+	// (1) reserved names after trimming
+	{
+		c.Case()
+		S, err := t38.Start(t38.Opts{})
+		if err != nil {
+			t.Fatal(err)
+		}
+		cs := S.MustDial()
+		accepted := 0
+		for _, cmd := range [][]string{
+			{"SET", "k", "a", "FIELD", " z", "7", "POINT", "1", "2"},
+			{"SET", "k", "b", "POINT", "1", "2"},
+			{"FSET", "k", "b", "lat ", "5"},
+			{"FSET", "k", "b", "\tlon", "5"},
+		} {
+			if v := cs.MustDo(cmd...); !v.IsErr() && cmd[0] != "SET" || (cmd[0] == "SET" && len(cmd) > 6 && !v.IsErr()) {
+				accepted++
+			}
+		}
+		cs.MustDo("SET", "k", "c", "POINT", "3", "4")
+		cs.MustDo("AOFSHRINK")
+		time.Sleep(300 * time.Millisecond)
+		for i := 0; i < 5000; i++ {
+			if _, err := os.Stat(S.AOFPath() + "-shrink"); os.IsNotExist(err) {
+				break
+			}
+			time.Sleep(time.Millisecond)
+		}
+		before, _ := t38.TakeDump(S.Addr)
+		dir := t38.NewDir("c09probe")
+		if err := t38.CopyDir(S.Dir, dir); err != nil {
+			t.Fatal(err)
+		}
+		cs.Close()
+		S.StopAsync()
+		after, R, err := bootDump(dir)
+		if err != nil {
+			c.Violation("reserved-field-name-after-trim", fmt.Sprintf("%d writes with field names that trim to z/lat/lon were accepted; after AOFSHRINK the server does not start on its own log: %v", accepted, err), nil)
+		} else {
+			if diff := before.Diff(after); diff != "" {
+				c.Violation("reserved-field-name-after-trim", "dataset differs after AOFSHRINK + restart: "+diff, nil)
+			}
+			R.StopAsync()
+		}
+		os.RemoveAll(dir)
+		c.NonTrivial("reserved-names")
+	}
+	// (2) areas by reference
+	{
+		c.Case()
+		A := `{"type":"Polygon","coordinates":[[[0,0],[10,0],[10,10],[0,10],[0,0]]]}`
+		B := `{"type":"Polygon","coordinates":[[[50,50],[60,50],[60,60],[50,60],[50,50]]]}`
+		setup := [][]string{
+			{"SET", "areas", "zone1", "OBJECT", A},
+			{"SET", "areas", "zone2", "OBJECT", A},
+			{"SET", "areas", "keep", "POINT", "1", "1"},
+			{"SETCHAN", "c1", "WITHIN", "fleet", "FENCE", "DETECT", "enter,inside,outside", "GET", "areas", "zone1"},
+			{"SETCHAN", "c2", "WITHIN", "fleet", "FENCE", "DETECT", "enter,inside,outside", "GET", "areas", "zone2"},
+			{"DEL", "areas", "zone1"},
+			{"SET", "areas", "zone2", "OBJECT", B},
+		}
+		run := func(shrink bool) (string, error) {
+			S, err := t38.Start(t38.Opts{})
+			if err != nil {
+				return "", err
+			}
+			cs := S.MustDial()
+			for _, cmd := range setup {
+				if v := cs.MustDo(cmd...); v.IsErr() {
+					return "", fmt.Errorf("%v: %s", cmd, v)
+				}
+			}
+			srv := S
+			if shrink {
+				cs.MustDo("AOFSHRINK")
+				time.Sleep(300 * time.Millisecond)
+				for i := 0; i < 5000; i++ {
+					if _, err := os.Stat(S.AOFPath() + "-shrink"); os.IsNotExist(err) {
+						break
+					}
+					time.Sleep(time.Millisecond)
+				}
+				dir := t38.NewDir("c09probe")
+				if err := t38.CopyDir(S.Dir, dir); err != nil {
+					return "", err
+				}
+				cs.Close()
+				S.StopAsync()
+				R, err := t38.Start(t38.Opts{Dir: dir})
+				if err != nil {
+					return "", fmt.Errorf("restart: %v", err)
+				}
+				srv = R
+				defer os.RemoveAll(dir)
+			}
+			defer srv.StopAsync()
+			sub := srv.MustDial()
+			defer sub.Close()
+			if err := sub.Send("PSUBSCRIBE", "c*"); err != nil {
+				return "", err
+			}
+			if _, err := sub.RecvTimeout(5 * time.Second); err != nil {
+				return "", err
+			}
+			w := srv.MustDial()
+			defer w.Close()
+			w.MustDo("SET", "fleet", "t", "POINT", "5", "5")
+			w.MustDo("SET", "fleet", "u", "POINT", "55", "55")
+			w.MustDo("PUBLISH", "cend", "x")
+			var got []string
+			for {
+				v, err := sub.RecvTimeout(10 * time.Second)
+				if err != nil {
+					return "", fmt.Errorf("subscriber: %v (got %v)", err, got)
+				}
+				if len(v.Arr) >= 4 && v.Arr[2].Str == "cend" {
+					break
+				}
+				if len(v.Arr) >= 4 {
+					m := v.Arr[3].Str
+					detect, id := "", ""
+					if i := strings.Index(m, `"detect":"`); i >= 0 {
+						detect = m[i+10:]
+						detect = detect[:strings.IndexByte(detect, '"')]
+					}
+					if i := strings.Index(m, `"id":"`); i >= 0 {
+						id = m[i+6:]
+						id = id[:strings.IndexByte(id, '"')]
+					}
+					got = append(got, v.Arr[2].Str+":"+id+":"+detect)
+				}
+			}
+			chans := srv.MustDial()
+			defer chans.Close()
+			n := len(chans.MustDo("CHANS", "*").Arr)
+			return fmt.Sprintf("%d channels; %s", n, strings.Join(got, ",")), nil
+		}
+		want, err1 := run(false)
+		got, err2 := run(true)
+		if err1 != nil {
+			t.Fatalf("twin: %v", err1)
+		}
+		if err2 != nil {
+			c.Violation("shrink-reresolves-get-area", "after AOFSHRINK + restart: "+err2.Error(), nil)
+		} else if got != want {
+			c.Violation("shrink-reresolves-get-area", fmt.Sprintf("channels defined with FENCE ... GET areas zoneN (zone1 deleted, zone2 replaced afterwards): un-shrunk server announces %q, after AOFSHRINK + restart %q", want, got), nil)
+		}
+		c.NonTrivial("get-areas")
+		c.Sample(map[string]any{"announced": want})
+	}
+}
